@@ -419,12 +419,14 @@ func Predict(c Case) *Expect {
 			conflictOwner := 0
 			for _, f := range u.Fields {
 				it := item{u.Target, "res", f}
-				if tainted[it] {
-					e.Hazard = "partial_claim"
-				}
 				if o, ok := owner[it]; ok && o != pos {
+					// owned by an earlier plugin's committed update: a conflict whatever a
+					// dropped update in between may have left behind
 					conflictField, conflictOwner = f, o
 					break
+				}
+				if tainted[it] {
+					e.Hazard = "partial_claim"
 				}
 			}
 			if conflictField == "" && u.SelfDup && u.Ignore && hugeField(u) != "" {
